@@ -5,6 +5,8 @@ an exception word is always scanned to an exception token (never to a licence to
 -/
 import SpdxVerif.Spec.Grammar
 import SpdxVerif.Lemmas.Lexeme
+import SpdxVerif.Lemmas.ParseString
+import SpdxVerif.Lemmas.Grammar
 namespace Spdx.C12
 
 /-- every exception token of the list is directly preceded by `WITH` (`prev` = the token before the list) -/
@@ -82,5 +84,18 @@ theorem exception_only_after_with_grammar {lv : Lvl} {ts : List Tok} {n : Node} 
 /-- an exception id (in any letter case) is never read as a licence: the scanner gives it the exception role -/
 theorem exception_word_is_exception_token (x : Bytes) (hx : x ∈ Tables.exceptions) (np : Bool) :
     normCore x np = some ([.exc x], false) := normCore_exception hx np
+
+end Spdx.C12
+
+namespace Spdx.C12
+
+/-- **string level**: in every valid expression, every exception token the scanner produces stands directly after `WITH` -/
+theorem valid_exception_only_after_with (s : Bytes) (ts : List Tok) (h : toks s = some ts) (hv : valid s = true) :
+    excGuard none ts = true := by
+  obtain ⟨ts', n, h1, h2⟩ := (valid_iff_toks s).mp hv
+  rw [h] at h1
+  simp only [Option.some.injEq] at h1
+  subst h1
+  exact exception_only_after_with_grammar ((parseTokens_iff _ _).mp h2) none
 
 end Spdx.C12
